@@ -35,10 +35,14 @@ func init() {
 			{ID: "R20.8", Template: "T-SIBLING", Text: "parallel frame caches of the multi-listener adapter are reset together", Min: 2},
 			{ID: "R20.9", Template: "T-SIBLING", Text: "the listener of a host function is given exactly the params (Before) and the results (After) on both engines (genuine compiler defect found and fixed)", Min: 6},
 			{ID: "R20.10", Template: "T-MUSTPASS", Text: "a call that ends in stack overflow completes every Before with an Abort (genuine defects found and fixed on both engines)", Min: 3},
+			{ID: "R20.11", Template: "T-REPR", Text: "the after-listener trampoline is passed the top of the operand stack", Min: 1},
+			{ID: "R20.12", Template: "T-CONSULT", Text: "in the recover paths a frame's listener is collected for Abort whenever it is non-nil", Min: 2},
 			{ID: "R20.6", Template: "T-SIBLING", Text: "listener objects captured by a cached compiled module are covered by the module identity (known finding: only nil-ness is hashed)", Min: 2},
 		},
 		Run: runC20,
 		Controls: []core.Control{
+			{Name: "after-gets-bottom-of-stack", File: "internal/engine/wazevo/frontend/lower.go", Old: "l.values[tail-c.results():tail]...)", New: "l.values[:c.results()+tail-tail]...)", Rule: "R20.11", Substr: "callListenerAfter"},
+			{Name: "abort-only-when-entry-module-has-listeners", File: "internal/engine/wazevo/call_engine.go", Old: "\t\t\t\tdef, lsn = c.addFrame(builder, retAddr)\n\t\t\t\tif lsn != nil {", New: "\t\t\t\tdef, lsn = c.addFrame(builder, retAddr)\n\t\t\t\tif len(c.parent.parent.listeners) > 0 && lsn != nil {", Rule: "R20.12", Substr: "compiler"},
 			{Name: "compiler-stack-overflow-without-abort", File: "internal/engine/wazevo/call_engine.go", Old: "\t\t\t\t\tif def, lsn := c.addFrame(builder, retAddr); lsn != nil {\n\t\t\t\t\t\tlsn.Abort(ctx, m, def, err)\n\t\t\t\t\t}", New: "\t\t\t\t\t_, _ = c.addFrame(builder, retAddr)", Rule: "R20.10", Substr: "compiler"},
 			{Name: "host-listener-after-sees-whole-slot-area", File: "internal/engine/wazevo/call_engine.go", Old: "listener.After(ctx, callerModule, def, s[:len(def.ResultTypes())])", New: "listener.After(ctx, callerModule, def, s)", Rule: "R20.9", Substr: "After"},
 			{Name: "interpreter-before-ahead-of-ceiling", File: "internal/engine/interpreter/interpreter.go", Old: "\t// Abort is delivered to the functions which have a frame, so Before must not be called for one that cannot get it.\n\tif callStackCeiling <= len(ce.frames) {\n\t\tpanic(wasmruntime.ErrRuntimeStackOverflow)\n\t}\n\tce.stackIterator.reset(ce.stack, ce.frames, f)", New: "\tce.stackIterator.reset(ce.stack, ce.frames, f)", Rule: "R20.10", Substr: "callNativeFuncWithListener"},
@@ -70,6 +74,8 @@ func runC20(c *core.Ctx) {
 	checkIteratorValues(c)
 	checkHostListenerSlices(c)
 	checkStackOverflowAbort(c)
+	checkAfterReceivesTopOfStack(c)
+	checkAbortCollectionUnconditional(c)
 }
 
 // ---------------------------------------------------------------------------------------------------------
